@@ -288,17 +288,21 @@ def handleDigestsPartial (t : Tree) (s : St) : List Ann → St
       | .error _ => s
       | .ok r => handleDigestsPartial t { s with roots := r } ds
 
+/-- the condition of the dependency lookup in `ApplyForcedChanges`: a root that is effective at or before the
+    forced change's best finalized number and announced on its chain -/
+def depCond (t : Tree) (s : St) (fc : Ann) (r : Node) : Except Err Bool :=
+  if eff t r.ann > fc.best then .ok false
+  else match isDesc t s r.ann.blk fc.blk with
+    | none => .error .anc
+    | some d => .ok d
+
 /-- `ApplyForcedChanges` -/
 def applyForced (t : Tree) (s : St) (b : Nat) : Except Err St :=
   match forcedFind t (isDesc t s) b (num t b) s.forced with
   | .error e => .error e
   | .ok none => .ok s
   | .ok (some fc) =>
-    let dep := lookupRoots (fun r =>
-      if eff t r.ann > fc.best then .ok false
-      else match isDesc t s r.ann.blk fc.blk with
-        | none => .error .anc
-        | some d => .ok d) s.roots
+    let dep := lookupRoots (depCond t s fc) s.roots
     match dep with
     | .error e => .error e
     | .ok (some _) => .error .pending
